@@ -14,20 +14,40 @@ for l in open(os.path.join(ROOT, "KNOWN_FINDINGS.txt")):
         head, what = l.split("::", 1)
         f = dict(x.split("=", 1) for x in head.split()[1:] if "=" in x)
         known.append((f["property"], f.get("class", ""), f.get("witness", ""), what.strip()))
-which = sys.argv[1]
-if which == "fixed":
-    print("| property | repaired defect | `fix:` commit in /repo |\n|---|---|---|")
-    for p, c, w in sorted(fixed):
-        print("| %s | %s | `%s` |" % (p, esc(w), c))
-elif which == "known":
-    print("| property | class | what fails | witness |\n|---|---|---|---|")
-    for p, c, wit, w in sorted(known):
-        print("| %s | `%s` | %s | `%s` |" % (p, esc(c), esc(w), wit))
-elif which == "seeds":
-    print("| seed | property | what the change breaks | what it needs to manifest | caught by | note |\n|---|---|---|---|---|---|")
-    for d in sorted(glob.glob(os.path.join(ROOT, "seeded", "*"))):
-        m = json.load(open(os.path.join(d, "meta.json")))
-        cr = m.get("check_results", {})
-        caught = ", ".join(k for k, v in cr.items() if v.get("caught")) or "MISSED"
-        note = m.get("strengthening", "")
-        print("| %s | %s | %s | %s | %s | %s |" % (os.path.basename(d), m.get("property", ""), esc((m.get("title") or m.get("what_breaks", ""))[:160]), esc(str(m.get("needs_to_manifest", ""))[:220]), caught, esc(note)))
+import io, contextlib
+def table(which):
+    buf = io.StringIO()
+    with contextlib.redirect_stdout(buf):
+        emit(which)
+    return buf.getvalue().rstrip("\n")
+def emit(which):
+  if which == "fixed":
+      print("| property | repaired defect | `fix:` commit in /repo |\n|---|---|---|")
+      for p, c, w in sorted(fixed):
+          print("| %s | %s | `%s` |" % (p, esc(w), c))
+  elif which == "known":
+      print("| property | class | what fails | witness |\n|---|---|---|---|")
+      for p, c, wit, w in sorted(known):
+          print("| %s | `%s` | %s | `%s` |" % (p, esc(c), esc(w), wit))
+  elif which == "seeds":
+      print("| seed | property | what the change breaks | what it needs to manifest | caught by | note |\n|---|---|---|---|---|---|")
+      for d in sorted(glob.glob(os.path.join(ROOT, "seeded", "*"))):
+          m = json.load(open(os.path.join(d, "meta.json")))
+          cr = m.get("check_results", {})
+          caught = ", ".join(k for k, v in cr.items() if v.get("caught")) or "MISSED"
+          note = m.get("strengthening", "")
+          if m.get("initially_missed") and not note.startswith("initially missed"):
+              note = "initially missed; added: " + note
+          print("| %s | %s | %s | %s | %s | %s |" % (os.path.basename(d), m.get("property", ""), esc((m.get("title") or m.get("what_breaks", ""))[:160]), esc(str(m.get("needs_to_manifest", ""))[:220]), caught, esc(note)))
+
+if sys.argv[1] == "--write":
+    # rewrite the tables of DESIGN.md in place (between the BEGIN/END markers)
+    p = os.path.join(ROOT, "DESIGN.md")
+    d = open(p).read()
+    for name in ("fixed", "known", "seeds"):
+        b, e = "<!-- BEGIN table-%s -->\n" % name, "\n<!-- END table-%s -->" % name
+        i, j = d.index(b) + len(b), d.index(e)
+        d = d[:i] + table(name) + d[j:]
+    open(p, "w").write(d)
+else:
+    emit(sys.argv[1])
